@@ -166,6 +166,11 @@ where
             });
 
             *result.lock().unwrap() = Some(Ok(f()));
+
+            // As with `std`, the thread-local destructors have run by the time
+            // `JoinHandle::join` returns.
+            rt::drop_locals();
+
             notify.notify(location);
         })
     };
